@@ -7,7 +7,8 @@ From PyGql Require Import Valid.ValidOverlap Spec.ValidSpec Proofs.ValidClosePro
      Proofs.ValidUnusedProofs Proofs.ValidSelPermProofs Proofs.ValidUniqueProofs
      Spec.ValidValueSpec Proofs.ValidValueProofs Spec.ValidLocalSpec Proofs.ValidLocalProofs
      Proofs.ValidVerdictProofs Proofs.ValidPermAllProofs Proofs.ValidSelPermAllProofs Proofs.ValidRenameProofs Proofs.ValidRenameAllProofs
-     Spec.ValidTypedSpec Proofs.ValidValuesDocProofs Proofs.ValidVarPosProofs Proofs.ValidVerdict25Proofs Proofs.ValidRename25Proofs Proofs.ValidSelPerm25Proofs.
+     Spec.ValidTypedSpec Proofs.ValidValuesDocProofs Proofs.ValidVarPosProofs Proofs.ValidVerdict25Proofs Proofs.ValidRename25Proofs Proofs.ValidSelPerm25Proofs
+     Proofs.ValidMemoProofs Proofs.ValidMemoComplete Proofs.ValidPermOverlap.
 From Coq Require Import Permutation.
 
 (* The closure iteration (repaired _flatten_fragments, and the reachable set
@@ -278,11 +279,69 @@ Theorem C06_rename_25 : forall rho sigma : str -> str,
 Proof. exact rename25. Qed.
 Print Assumptions C06_rename_25.
 
+(* ---- OverlappingFieldsCanBeMerged against its own memo-free search ----
+   [conflict_free s frs c] (Proofs/ValidMemoProofs.v; unfolding rule [step]):
+   the search from call c WITHOUT the two memo sets meets no conflict at any
+   depth (greatest fixed point; the memo-free search tree is infinite on cyclic
+   spreads). With the stated fuel the rule is silent exactly when every call it
+   makes for a visited selection set -- all same-key pairs of the set, the set
+   against each of its spreads, all pairs of its spreads -- is conflict free:
+   the memo sets (keys with the exclusivity flag; a field map identified by the
+   location of its selection set) change nothing in the verdict. Hypothesis
+   [faithful_locations]: locations identify field maps (C05_faithful_locations
+   derives it from distinct locations and rule verdicts). *)
+Theorem C06_rule_equiv_OverlappingFieldsCanBeMerged_memo_free : forall s d,
+  faithful_locations s d ->
+  (r25_overlapping_fields (overlap_fuel s d) s d = Ok [] <->
+   forall parent l sels, In (ESelSet parent l sels) (doc_events s d) ->
+     forall c, In c (selset_calls s parent l sels) -> conflict_free s (frag_table (doc_defs d)) c).
+Proof. exact r25_equiv_memo_free. Qed.
+Print Assumptions C06_rule_equiv_OverlappingFieldsCanBeMerged_memo_free.
+
+(* The half without any hypothesis, any fuel: the rule reports a conflict only
+   if the memo-free search meets one. *)
+Theorem C06_overlap_reports_only_conflicts : forall fuel s d r,
+  r25_overlapping_fields fuel s d = Ok r -> r <> [] ->
+  ~ (forall parent l sels, In (ESelSet parent l sels) (doc_events s d) ->
+       forall c, In c (selset_calls s parent l sels) -> conflict_free s (frag_table (doc_defs d)) c).
+Proof. exact r25_reports_only_conflicts. Qed.
+Print Assumptions C06_overlap_reports_only_conflicts.
+
+(* The memo-free search does not depend on the order in which two sides are
+   compared (field maps have one entry per response key). *)
+Theorem C06_conflict_free_symmetric : forall s frs c,
+  keyed c -> conflict_free s frs c -> conflict_free s frs (mirror_call c).
+Proof. exact conflict_free_mirror. Qed.
+Print Assumptions C06_conflict_free_symmetric.
+
 (* Full statement: the whole verdict is invariant under permutation of the
    definitions. *)
 Definition C06_perm_definitions_full : Prop :=
   forall fuel s d d', Permutation (doc_defs d) (doc_defs d') ->
     (validate_model fuel s d = Ok [] <-> validate_model fuel s d' = Ok []).
+
+(* The verdict of all 26 rules: the validator (stated fuel) accepts exactly the
+   documents that satisfy the 25 declarative forms and whose memo-free
+   overlapping-fields search meets no conflict ([overlap_spec]). *)
+Theorem C06_verdict_26 : forall s d,
+  wf_inputs s -> wf_arg_types s -> wf_var_types s d -> faithful_locations s d ->
+  (validate s d = Ok [] <-> valid_spec25 s d /\ overlap_spec s d).
+Proof. exact verdict26. Qed.
+Print Assumptions C06_verdict_26.
+
+(* Proved for ALL 26 rules, with the stated fuel of each document and under
+   hypotheses: input types well formed (rules 22, 24) and locations identify
+   field maps (rule 25; C05_faithful_locations). OverlappingFieldsCanBeMerged
+   goes through its equivalence with the memo-free search: the memo sets are
+   filled in another order when the definitions are permuted, the memo-free
+   search is the same. *)
+Theorem C06_perm_definitions_all26 : forall s d d',
+  wf_inputs s -> wf_arg_types s -> wf_var_types s d ->
+  faithful_locations s d ->
+  Permutation (doc_defs d) (doc_defs d') ->
+  (validate s d = Ok [] <-> validate s d' = Ok []).
+Proof. exact perm_definitions_all26. Qed.
+Print Assumptions C06_perm_definitions_all26.
 
 (* Proved part: for the rules with a proved specification form the verdict is
    invariant under every permutation of the definitions (proved on the
